@@ -38,12 +38,14 @@ Theorem C17_readd_after_kill_is_new : forall s ch prio n tmo ser j,
 Proof. exact readd_after_kill_is_new. Qed.
 Print Assumptions C17_readd_after_kill_is_new.
 
-(* Waits: a wait on a finished job returns at once with it; a wait on an unfinished job blocks;
-   the only event that releases a waiting client is the finish event of its job. *)
+(* Waits: a wait on a finished job returns at once with it - in EVERY state, also while the finish notifier of
+   earlier waiters is still pending in the hub (a8ac510: before, such a late client blocked on gevent's pending
+   notifier and was never released when the earlier waiters' connections dropped first:
+   A 0 0 - -;W 1 a1;D 1;K 7 a1;W 5 a1;L); a wait on an unfinished job blocks; the only event that releases a
+   blocked client is the finish event of its job. *)
 Theorem C17_wait_done_immediate : forall s c i ser j,
   is_idle c s = true -> id_lookup (s_ids s) i = Some ser -> getjob (s_jobs s) ser = Some j -> j_done j = true ->
-  done_pending ser (s_hub s) = false ->     (* no finish notification of this job still queued in the hub; after a restart s_hub = [] *)
-  j_drop j = false ->                       (* nobody called rpc_qdrop on it (then its id is forgotten as well: wait_done_dropped) *)
+  j_drop j = false ->                       (* nobody called rpc_qdrop on it (then its id is forgotten as well: C17_wait_done_dropped) *)
   step s (Wait c i) = (s, [OReleased c j]).
 Proof. exact wait_done_immediate. Qed.
 Print Assumptions C17_wait_done_immediate.
@@ -51,7 +53,7 @@ Print Assumptions C17_wait_done_immediate.
 (* a dropped finished job is handed over and its id is forgotten - while the id still names this very job object *)
 Theorem C17_wait_done_dropped : forall s c i ser j,
   is_idle c s = true -> id_lookup (s_ids s) i = Some ser -> getjob (s_jobs s) ser = Some j -> j_done j = true ->
-  done_pending ser (s_hub s) = false -> j_drop j = true -> id_is (s_ids s) (j_id j) ser = true ->
+  j_drop j = true -> id_is (s_ids s) (j_id j) ser = true ->
   step s (Wait c i) = (set_ids (id_del (s_ids s) (j_id j)) s, [OReleased c j]).
 Proof. exact wait_done_dropped. Qed.
 Print Assumptions C17_wait_done_dropped.
@@ -104,15 +106,6 @@ Theorem C17_counters : forall h ch,
   total (cnt_get (s_cnt s) ch) = donecount (s_jobs s) ch.
 Proof. exact counters. Qed.
 Print Assumptions C17_counters.
-
-(* CAVEAT for the liveness theorems below (model vs. gevent 26.8): the model's EvDone releases EVERY connection that is
-   blocked on the job, including a client that started waiting on the already finished job while the notifier was still
-   pending (Wait blocks on `done_pending`).  Real gevent registers such a late client on the pending notifier object and
-   CANCELS that notifier when the last earlier waiter is killed before it ran: the late client is then never released
-   (A 0 0 - -;W 1 a1;D 1;K 7 a1;W 5 a1;L - reproduced on /repo, reported, proposed patch /verif/fixes/C17-wait-lost-wakeup.diff:
-   waitjobs must not wait on the event of a job that is already done).  That corner is excluded from the differential
-   run's generators until the patch is in /repo; with the patch Wait on a finished job returns at once and the
-   `done_pending` premise of C17_wait_done_immediate disappears. *)
 
 (* "Clients waiting for a job are released exactly when it is finished", liveness half.
    Hub invariant, for EVERY history: a connection blocked in a wait either waits for an unfinished job, or the wake-up
